@@ -246,7 +246,12 @@ printload:过程打印函数
 void buffergroup::run_buffer(const std::function<void(std::string, size_t)> &printload)
 {
   do
+  WV_LOOP(__CPROVER_assigns(WV_IO_LOOP_FRAME(this))
+          __CPROVER_loop_invariant(WV_IO_LOOP_INV(this, __CPROVER_loop_entry(this->fin->pos), __CPROVER_loop_entry(this->fout->pos), __CPROVER_loop_entry(this->fout->nbytes),
+                                                  __CPROVER_loop_entry(wv_wcount), __CPROVER_loop_entry(wv_wbyte)))
+          __CPROVER_decreases(WV_IO_LOOP_MEASURE(this)))
   {
+    WV_GHOST(WV_IO_LOOP_TURN(this);)
     ctrl[turn].wait_update();
     buffer_update(printload);
   } while (turn_iter());
